@@ -294,9 +294,11 @@ def do_replay(prop: str, path: str) -> int:
         from .props import codec_aliasing
         codec_aliasing.replay(case)
         return 0
-    if prop == "C18" and case.get("kind") in ("hookfault", "object", "session"):
-        # MQTT transport: a fault plan over the documented hooks / a run of one client object / a reception session
-        print(json.dumps({k: v for k, v in case.items() if k in ("kind", "in_prefix", "plan", "transport", "aexit")}, default=str))
+    if prop == "C18" and case.get("kind") in ("hookfault", "object", "session", "prefix", "write", "subscribe"):
+        # MQTT transport: a fault plan over the documented hooks / a run of one client object / a reception session /
+        # a pair of configured prefixes / one message written and echoed / the subscriptions of one prefix
+        print(json.dumps({k: v for k, v in case.items() if k in ("kind", "in_prefix", "out_prefix", "in", "out", "fields", "payload",
+                                                                  "plan", "transport", "aexit")}, default=str)[:3000])
         from .props import mqtt
         mqtt.replay(case)
         return 0
